@@ -475,3 +475,112 @@ func returnsNonNilError(fg *FlowGraph, info *types.Info, r *ast.ReturnStmt) bool
 	}
 	return false
 }
+
+// R6.status-reports-live-bit
+func init() {
+	register(&Rule{ID: "R6.status-reports-live-bit", Props: []string{"C06"}, Floor: 2,
+		Text: "a follower never reports itself healthy or caught up while it is re-synchronising: the gate in front of the commands tests the sticky bit (caughtUpOnce: 'has been caught up at some time', which lets a follower keep serving reads through a reconnect), so the two status reports have to test the live bit themselves — the handler of HEALTHZ (found through the dispatch table), evaluated in the scenario 'follower, live bit false' (scenario evaluation on go/cfg, helpers included), reaches no return without an error; and the value stored under \"caught_up\" in the SERVER reply is the call of the live predicate caughtUp(), the one followStep clears before every (re)connect (R6.caught-up-guard)",
+		Run:  ruleStatusReportsLiveBit})
+}
+
+func ruleStatusReportsLiveBit(c *Ctx) {
+	a := c.muLK()
+	if a.err != "" {
+		c.und("engine", 0, "command tables not available: %s", a.err)
+		return
+	}
+	ct := a.ct
+	live := c.Func("internal/server", "Server", "caughtUp")
+	if live == nil {
+		c.und("anchors", 0, "Server.caughtUp not found")
+		return
+	}
+	// the live predicate is the one followStep clears: setCaughtUp(false) and caughtUp() use the same field —
+	// the function named caughtUp must not have become an alias of the sticky one
+	once := c.Func("internal/server", "Server", "caughtUpOnce")
+	if once != nil && live.Decl.Body != nil && once.Decl.Body != nil {
+		// what a predicate looks at: the fields it reads and the named constants (bit masks) it uses
+		reads := func(fn *FuncInfo) map[types.Object]bool {
+			out := map[types.Object]bool{}
+			ast.Inspect(fn.Decl.Body, func(n ast.Node) bool {
+				switch x := n.(type) {
+				case *ast.SelectorExpr:
+					if fv := selField(fn.Info(), x); fv != nil {
+						out[fv] = true
+					}
+				case *ast.Ident:
+					if k, ok := fn.Info().ObjectOf(x).(*types.Const); ok && k.Pkg() != nil {
+						out[k] = true
+					}
+				}
+				return true
+			})
+			return out
+		}
+		lr, or := reads(live), reads(once)
+		same := len(lr) > 0
+		for f := range lr {
+			if !or[f] {
+				same = false
+			}
+		}
+		c.check(!same, "live-bit-distinct", live.Decl.Pos(), "caughtUp and caughtUpOnce look at different fields or bits", "caughtUp() looks at nothing but what caughtUpOnce() looks at (same fields, same bit constants): the live bit has become the sticky bit")
+	}
+	var handlers []*types.Func
+	for _, cl := range ct.DT.Clauses {
+		for _, s := range cl.Strings {
+			if s == "healthz" {
+				handlers = append(handlers, ct.Handlers[cl]...)
+			}
+		}
+	}
+	if len(handlers) == 0 {
+		c.und("healthz", 0, "no handler of 'healthz' in the dispatch table")
+		return
+	}
+	sc := c.serverScenario(map[string]byte{"follower": '1', "caughtuplive": '0'}, "healthz", false)
+	for _, h := range handlers {
+		fi := c.FuncOf(h)
+		if fi == nil || fi.Decl.Body == nil {
+			continue
+		}
+		info := fi.Info()
+		fg := newFlowGraph(info, fi.Decl.Body)
+		reach, w := c.scenReach(fg, fi.Decl.Body, sc, Loc{}, func(l Loc) bool {
+			r, ok := l.Node.(*ast.ReturnStmt)
+			return ok && !returnsError(info, fi, r)
+		}, nil)
+		c.checkPath(!reach, "healthz/"+funcName(h), fi.Decl.Pos(), w,
+			"on a follower whose live caught-up bit is false every return carries an error",
+			"HEALTHZ can answer without an error on a follower whose live caught-up bit is false: the gate in front of the handler tests the sticky bit only, so a follower that is re-synchronising after a reconnect (and may have thrown its dataset away) reports itself healthy")
+	}
+	// SERVER: m["caught_up"] = s.caughtUp()
+	n := 0
+	for _, fn := range c.AllFuncs("internal/server") {
+		if fn.Decl.Body == nil {
+			continue
+		}
+		info := fn.Info()
+		ast.Inspect(fn.Decl.Body, func(x ast.Node) bool {
+			as, ok := x.(*ast.AssignStmt)
+			if !ok || len(as.Lhs) != 1 || len(as.Rhs) != 1 {
+				return true
+			}
+			ix, ok := ast.Unparen(as.Lhs[0]).(*ast.IndexExpr)
+			if !ok {
+				return true
+			}
+			if k, ok := constString(info, ix.Index); !ok || k != "caught_up" {
+				return true
+			}
+			n++
+			call, isCall := ast.Unparen(as.Rhs[0]).(*ast.CallExpr)
+			okk := isCall && callee(info, call) == live.Obj
+			c.check(okk, "server-reply/"+funcName(fn.Obj)+"→caught_up", as.Pos(), "\"caught_up\" reports caughtUp()", "the \"caught_up\" member of the SERVER reply is not the live predicate caughtUp(): a re-synchronising follower reports itself caught up")
+			return true
+		})
+	}
+	if n == 0 {
+		c.und("server-reply", 0, "no store of the \"caught_up\" member found")
+	}
+}
